@@ -12,6 +12,7 @@ import (
 	"path/filepath"
 	"sort"
 	"strconv"
+	"strings"
 	"sync"
 	"sync/atomic"
 	"testing"
@@ -138,11 +139,23 @@ func TestC20StressChild(t *testing.T) {
 }
 
 func c20RunTransmit(in c20Input, exe string, raceBuild bool) c20StressResult {
+	var r c20StressResult
+	for attempt := 0; attempt < 3; attempt++ {
+		var tsan bool
+		r, tsan = c20RunTransmitOnce(in, exe, raceBuild)
+		if !tsan {
+			break
+		}
+	}
+	return r
+}
+
+func c20RunTransmitOnce(in c20Input, exe string, raceBuild bool) (c20StressResult, bool) {
 	res := c20StressResult{RaceSites: []string{}, RaceBuild: raceBuild}
 	dir, err := os.MkdirTemp("", "c20stress")
 	if err != nil {
 		res.Crash = "harness: " + err.Error()
-		return res
+		return res, false
 	}
 	defer os.RemoveAll(dir)
 	outPath := filepath.Join(dir, "result.json")
@@ -176,7 +189,7 @@ func c20RunTransmit(in c20Input, exe string, raceBuild bool) c20StressResult {
 	if res.Crash == "" && res.ChildExit != 0 && res.Races == 0 {
 		res.Crash = fmt.Sprintf("child exit %d: %s", res.ChildExit, c20Tail(out, 300))
 	}
-	return res
+	return res, strings.Contains(out, "ThreadSanitizer: CHECK failed")
 }
 
 var _ = testing.Short
